@@ -248,14 +248,28 @@ Fixpoint ck_split_ok (ds : list bytes) : bool :=
 
 (* ================================================================== 8. tar framing of zip uploads (zipslicer/tarzip.go) *)
 Definition tar_name (k : Z) : bytes := if k =? 0 then tar_member_cd else if k =? 1 then tar_member_zip else [].
-Definition seek_pos (k dirloc : Z) : Z := if k =? 0 then 0 else if k =? 1 then dirloc else -1.
+Definition off_of (k dirloc : Z) : Z := if k =? 0 then 0 else if k =? 1 then dirloc else -1.
 Definition size_of (k dirloc size : Z) : Z := if k =? 0 then size - dirloc else if k =? 1 then size else -1.
-(* ZipToTar: r.Seek(0, SeekEnd); FindDirectory; then for the j-th tarAddStream: Seek to the (j+1)-th seek target and CopyN *)
-Definition zip_to_tar (dirloc : Z) (f : bytes) : list (bytes * bytes) :=
+(* ZipToTar: size from Stat, FindDirectory, then for the j-th tarAddStream a header (name, size_j) followed by
+   io.CopyN(size_j) from io.NewSectionReader(file, offset_j, length_j) — positioned reads, no shared file offset.
+   A section shorter than the announced size makes CopyN fail (E_TARZIP_SHORT) *)
+Definition E_TARZIP_SHORT := 2.
+Definition tar_member (dirloc : Z) (f : bytes) (j : nat) : result (bytes * bytes) :=
   let size := zlen f in
-  map (fun j => (tar_name (nth j ziptotar_members 99),
-                 ztake (size_of (nth j ziptotar_sizes 99) dirloc size) (zdrop (seek_pos (nth (S j) ziptotar_seeks 99) dirloc) f)))
-      (seq 0 (length ziptotar_members)).
+  let want := size_of (nth j ziptotar_sizes 99) dirloc size in
+  let section := ztake (size_of (nth j ziptotar_lengths 99) dirloc size) (zdrop (off_of (nth j ziptotar_offsets 99) dirloc) f) in
+  if zlen section <? want then Err E_TARZIP_SHORT
+  else Ok (tar_name (nth j ziptotar_members 99), ztake want section).
+Fixpoint collect {A} (l : list (result A)) : result (list A) :=
+  match l with
+  | [] => Ok []
+  | r :: t => x <- r ;; xs <- collect t ;; Ok (x :: xs)
+  end.
+Definition zip_to_tar (dirloc : Z) (f : bytes) : result (list (bytes * bytes)) :=
+  collect (map (tar_member dirloc f) (seq 0 (length ziptotar_members))).
+(* no producer moves the file offset the next GetReader (or Apply) relies on *)
+Definition producers_use_positioned_reads : bool :=
+  ziptotar_no_seek && taraddstream_no_seek && macho_send_no_seek && dmg_send_no_seek && msitotar_no_seek.
 (* ReadZipTar: first member must be the directory (read whole), second the zip, streamed *)
 Definition E_TARZIP := 1.
 Definition read_zip_tar (members : list (bytes * bytes)) : result (bytes * bytes) :=
